@@ -237,6 +237,31 @@ func operandOnPaths(c *km.Ctx, s *km.Sem, site ssa.Instruction, operand ssa.Valu
 		}
 		return true, ""
 	}
+	// a field of what a preamble helper handed back (authenticated, authorised and parsed in one place): the value
+	// the helper stored there, judged under the facts of the helper's return
+	if _, _, isField := km.FieldOfLoad(operand); isField {
+		okAll, n := true, 0
+		for _, k := range st {
+			if pred(k, operand) {
+				n++
+				continue
+			}
+			lfs := s.Leaves(k, fn, nil, operand, nil, 2)
+			if len(lfs) == 1 && lfs[0].Val == operand {
+				okAll = false
+				break
+			}
+			for _, lf := range lfs {
+				n++
+				if !pred(lf.K, lf.Val) {
+					okAll = false
+				}
+			}
+		}
+		if okAll && n > 0 {
+			return true, ""
+		}
+	}
 	p, isParam := operand.(*ssa.Parameter)
 	if !isParam || roots[fn] || depth == 0 {
 		return false, "in " + km.FuncName(fn) + " operand " + km.ValStr(operand) + " is neither bound to the authenticated user nor under the admin fact; state " + clipS(st.String(), 400)
